@@ -593,7 +593,11 @@ def run_check(pid, tier, seed, nruns=None, workers=None):
 
     wall = time.time() - t0
     write_evidence(prop, tier, seed, merged, wall, n_viol, n_known, reported, harness_errors)
+    seen_lines = set()
     for ln in lines:
+        if ln.startswith("VIOLATION") and ln in seen_lines:
+            continue  # the same minimised history found again under python -O
+        seen_lines.add(ln)
         print(ln)
     print(
         f"property={pid} tier={tier} runs={merged['runs']} steps={merged['steps']} "
